@@ -33,6 +33,17 @@ func (s *Store) SplitRegion(parentID uint64, childMeta manifest.RegionMeta) (*pe
 		return nil, fmt.Errorf("raftstore: parent region %d not found", parentID)
 	}
 	originalParent := manifest.CloneRegionMeta(parentMeta)
+	if childMeta.ID == parentID {
+		return nil, fmt.Errorf("raftstore: child region id %d equals the parent region id", childMeta.ID)
+	}
+	if _, exists := s.RegionMetaByID(childMeta.ID); exists {
+		return nil, fmt.Errorf("raftstore: child region %d already exists", childMeta.ID)
+	}
+	// The child takes over [splitKey, parent end): any other end key would leave a hole
+	// or overlap the parent's right neighbour.
+	if !bytes.Equal(childMeta.EndKey, parentMeta.EndKey) {
+		return nil, fmt.Errorf("raftstore: child end key must equal the parent end key")
+	}
 	if len(parentMeta.EndKey) > 0 && bytes.Compare(childMeta.StartKey, parentMeta.EndKey) >= 0 {
 		return nil, fmt.Errorf("raftstore: split key >= parent end key")
 	}
